@@ -31,6 +31,11 @@ type LockStep struct {
 	AfterFinal func(r *Run, m *Model)
 	// SkipVars disables the final variable comparison.
 	SkipVars bool
+	// CompletionShape is appended to the signatures of the completion clauses.
+	CompletionShape string
+	// Ctx, if set, gives the enclosing-block context of a node id; it is appended to the
+	// signatures of the request clauses ("...@incl<loop").
+	Ctx func(nodeID string) string
 }
 
 func diffMultiset(impl, model []string) (extra, missing []string) {
@@ -71,26 +76,33 @@ func distinct(sorted []string) []string {
 // recorded a violation.
 func (ls *LockStep) Compare(r *Run, m *Model, history []string) bool {
 	if r.StartErr != nil {
-		h.Fail(ls.Sig+"/start-error", "StartAll returned %v", r.StartErr)
+		ls.fail("/start-error", "StartAll returned %v", r.StartErr)
 		return false
 	}
 	if !r.StartReturned {
-		h.Fail(ls.Sig+"/startall-returns", "StartAll has not returned in a quiescent state (history %v)", history)
+		ls.fail("/startall-returns", "StartAll has not returned in a quiescent state (history %v)", history)
 		return false
 	}
 	extra, missing := diffMultiset(r.PendingIDs(), m.PendingIDs())
 	if len(extra) > 0 {
-		h.Fail(ls.Sig+"/requested-too-often", "after answers %v the engine has unanswered requests %v, token semantics gives %v (extra %v)", history, r.PendingIDs(), m.PendingIDs(), extra)
+		ls.fail("/requested-too-often/"+ls.shape0(extra[0])+revisit(r.Requests(extra[0])-1)+ls.ctxOf(extra[0]), "after answers %v the engine has unanswered requests %v, token semantics gives %v (extra %v)", history, r.PendingIDs(), m.PendingIDs(), extra)
 		return false
 	}
 	if len(missing) > 0 {
-		h.Fail(ls.Sig+"/not-requested", "after answers %v the engine has unanswered requests %v, token semantics gives %v (missing %v)", history, r.PendingIDs(), m.PendingIDs(), missing)
+		ls.fail("/not-requested/"+ls.shape0(missing[0])+revisit(r.Requests(missing[0]))+ls.ctxOf(missing[0]), "after answers %v the engine has unanswered requests %v, token semantics gives %v (missing %v)", history, r.PendingIDs(), m.PendingIDs(), missing)
 		return false
 	}
 	ek := r.ErrorKinds()
 	me := sortedCopy(m.Errs)
 	if !eqStrings(ek, me) {
-		h.Fail(ls.Sig+"/error-traces", "after answers %v error traces %v, expected %v", history, ek, me)
+		extraE, missingE := diffMultiset(ek, me)
+		what := ""
+		if len(missingE) > 0 {
+			what = "missing-" + errKind(missingE[0]) + ls.ctxOf(errNode(missingE[0]))
+		} else {
+			what = "unexpected-" + errKind(extraE[0]) + ls.ctxOf(errNode(extraE[0]))
+		}
+		ls.fail("/error-traces/"+what, "after answers %v error traces %v, expected %v", history, ek, me)
 		return false
 	}
 	if len(r.Grammar) > 0 {
@@ -100,45 +112,135 @@ func (ls *LockStep) Compare(r *Run, m *Model, history []string) bool {
 	return true
 }
 
+// shape names the kinds of the nodes immediately upstream of a task: the discriminator that
+// keeps different root causes apart in violation signatures.
+func errKind(e string) string {
+	for i := 0; i < len(e); i++ {
+		if e[i] == ':' {
+			return e[:i]
+		}
+	}
+	return "other"
+}
+
+func errNode(e string) string {
+	for i := 0; i < len(e); i++ {
+		if e[i] == ':' {
+			return e[i+1:]
+		}
+	}
+	return ""
+}
+
+// revisit distinguishes the first request of a task from later ones (loop re-entry).
+func revisit(before int) string {
+	if before > 0 {
+		return "/revisit"
+	}
+	return ""
+}
+
+func (ls *LockStep) ctxOf(id string) string {
+	if ls.Ctx == nil {
+		return ""
+	}
+	return "@" + ls.Ctx(id)
+}
+
+func (ls *LockStep) cshape() string { return "" }
+
+// fail records a violation; the signature is <Sig><clause>[#<structural tags of the input>].
+func (ls *LockStep) fail(clause, format string, a ...any) {
+	sig := ls.Sig + clause
+	if ls.CompletionShape != "" {
+		sig += "#" + ls.CompletionShape
+	}
+	h.Fail(sig, format, a...)
+}
+
+func (ls *LockStep) shape(taskID string) string {
+	s := ls.shape0(taskID)
+	if ls.Ctx != nil {
+		s += "@" + ls.Ctx(taskID)
+	}
+	return s
+}
+
+func (ls *LockStep) shape0(taskID string) string {
+	n := ls.G.Find(taskID)
+	if n == nil {
+		return "unknown"
+	}
+	seen := map[string]bool{}
+	var kinds []string
+	for _, f := range n.In {
+		k := string(f.Src.Kind)
+		if f.Src.Host != nil {
+			k = "boundaryEvent"
+		}
+		if f.Src.Kind == Start && f.Src.Parent != nil && f.Src.Parent.Sub != nil {
+			k = "startEvent-in-subProcess"
+		}
+		if !seen[k] {
+			seen[k] = true
+			kinds = append(kinds, k)
+		}
+	}
+	sort.Strings(kinds)
+	if len(kinds) == 0 {
+		return "no-incoming"
+	}
+	s := "after-" + kinds[0]
+	for _, k := range kinds[1:] {
+		s += "+" + k
+	}
+	return s
+}
+
 // Final checks completion, end events, variables.
 func (ls *LockStep) Final(r *Run, m *Model, w *Wait, history []string) {
+	if m.Stuck > 0 {
+		// a token without an effective flow at a gateway: the statement only requires the error
+		// trace (compared above); what happens to the instance afterwards is left open
+		return
+	}
 	if m.Complete() {
 		if !w.Returned {
-			h.Fail(ls.Sig+"/completes", "no token remains (answers %v, ended %v) but WaitUntilComplete has not returned", history, m.Ended)
+			ls.fail("/completes"+ls.cshape(), "no token remains (answers %v, ended %v) but WaitUntilComplete has not returned", history, m.Ended)
 			return
 		}
 		if !w.Result {
-			h.Fail(ls.Sig+"/completes", "WaitUntilComplete returned false with a live context")
+			ls.fail("/completes", "WaitUntilComplete returned false with a live context")
 		}
 		if r.Ceased != 1 {
-			h.Fail(ls.Sig+"/cease-once", "%d CeaseFlowTrace after completion, want 1", r.Ceased)
+			ls.fail("/cease-once"+ls.cshape(), "%d CeaseFlowTrace after completion, want 1", r.Ceased)
 		} else if r.CeasedAt < r.LastFlowAt {
-			h.Fail(ls.Sig+"/cease-last", "CeaseFlowTrace at stream position %d precedes a flow trace at %d", r.CeasedAt, r.LastFlowAt)
+			ls.fail("/cease-last", "CeaseFlowTrace at stream position %d precedes a flow trace at %d", r.CeasedAt, r.LastFlowAt)
 		}
 	} else {
 		if w.Returned && w.Result {
-			h.Fail(ls.Sig+"/completes-early", "WaitUntilComplete returned true although tokens remain: %s", m)
+			ls.fail("/completes-early"+ls.cshape(), "WaitUntilComplete returned true although tokens remain: %s", m)
 			return
 		}
 		if r.Ceased != 0 {
-			h.Fail(ls.Sig+"/completes-early", "CeaseFlowTrace emitted although tokens remain: %s", m)
+			ls.fail("/completes-early", "CeaseFlowTrace emitted although tokens remain: %s", m)
 		}
 	}
 	got, want := sortedCopy(r.Completed), sortedCopy(m.Ended)
 	if !eqStrings(got, want) {
-		h.Fail(ls.Sig+"/end-events", "CompletionTrace nodes %v, token game reaches %v (answers %v)", got, want, history)
+		ls.fail("/end-events"+ls.cshape(), "CompletionTrace nodes %v, token game reaches %v (answers %v)", got, want, history)
 	}
 	if !ls.SkipVars {
 		iv := r.Vars()
 		for k, v := range m.Vars {
 			if fmt.Sprint(iv[k]) != fmt.Sprint(v) {
-				h.Fail(ls.Sig+"/variables", "variable %s = %v (%T), expected %v (%T) after answers %v", k, iv[k], iv[k], v, v, history)
+				ls.fail("/variables", "variable %s = %v (%T), expected %v (%T) after answers %v", k, iv[k], iv[k], v, v, history)
 				break
 			}
 		}
 		for k := range iv {
 			if _, ok := m.Vars[k]; !ok {
-				h.Fail(ls.Sig+"/variables", "unexpected variable %s = %v", k, iv[k])
+				ls.fail("/variables", "unexpected variable %s = %v", k, iv[k])
 				break
 			}
 		}
@@ -159,7 +261,11 @@ func (ls *LockStep) Body() func() {
 			mg = ls.G
 		}
 		m := NewModel(mg, ls.Vars)
-		w := r.WaitComplete(nil)
+		// WaitUntilComplete is only meaningful once StartAll has been called (the completion
+		// monitor takes the completion lock inside StartAll): the waiter is issued right after
+		// StartAll returns, concurrently with everything the instance does from then on.
+		var w *Wait
+		r.AfterStart = func() { w = r.WaitComplete(nil) }
 		r.StartAll()
 		m.StartAll()
 		max := ls.MaxAnswers
@@ -170,6 +276,10 @@ func (ls *LockStep) Body() func() {
 		for step := 0; ; step++ {
 			verifrt.WaitIdle()
 			if !ls.Compare(r, m, history) {
+				verifrt.Log("vars=%v", ls.Vars)
+				for _, s := range r.Stream {
+					verifrt.Log("trace %s", s)
+				}
 				return
 			}
 			if len(m.Pending) == 0 {
@@ -200,6 +310,13 @@ func (ls *LockStep) Body() func() {
 				r.Answer(pt)
 			}
 		}
+		nf := verifrt.NFails()
 		ls.Final(r, m, w, history)
+		if verifrt.NFails() > nf {
+			verifrt.Log("vars=%v", ls.Vars)
+			for _, s := range r.Stream {
+				verifrt.Log("trace %s", s)
+			}
+		}
 	}
 }
